@@ -126,6 +126,17 @@ def okFrom (decls : List (List Var)) : JS → List Obs → Bool
         && okFrom decls (advance js o.ev) rest
     else true
 
+/-- diagnostics: index of the first rejected observation with the judge's bookkeeping at that point
+    (`okFrom` accepts ⇔ there is none: `Props/C11.ok_iff_no_first_bad`) -/
+def firstBadFrom (decls : List (List Var)) : JS → List Obs → Nat → Option (Nat × JS)
+  | _, [], _ => none
+  | js, o :: rest, i =>
+    if evInScope js o.ev then
+      if outOk o && valsOk decls (advance js o.ev) o.vals && cbsOk decls (advance js o.ev) o.cbs then
+        firstBadFrom decls (advance js o.ev) rest (i + 1)
+      else some (i, advance js o.ev)
+    else none
+
 /-- **C11.ok** -/
 def ok (decls : List (List Var)) (h : List Obs) : Bool := okFrom decls {} h
 
